@@ -42,6 +42,13 @@ CLAIMED["C05"] = (
     "DESIGN.md §3 C05",
 )
 
+CLAIMED["C06"] = (
+    "ast sibling-agreement rules on the shape classes (canonicalised expressions: locals inlined, self._x = self.x), structural rules on LaneletNetwork index construction and on the two lookup functions (reaching definitions, dominating guards)",
+    "Decides that each shape's containment predicate, exported shapely geometry and drawing are built from the same parameters (circle: bare radius/centre, closed disc; rectangle: (+-l/2, +-w/2) ring placed by centre and orientation; polygon: vertex ring with closed bbox pre-filter; group: any member), that the index stores per lanelet id that lanelet's polygon (right + reversed left boundary), that id map and tree are rebuilt together and on every construction route, and that both lookups filter and map tree hits consistently with a boundary-inclusive predicate. Does not decide shapely's predicates, tolerances or polygon validity.",
+    "Trusts shapely/STRtree semantics (query returns candidates; predicate names) and the recognised expression idioms (an unrecognised rewrite is reported, see DESIGN §4).",
+    "DESIGN.md §3 C06",
+)
+
 NOT_APPLICABLE = {
     "C17": "modular arithmetic over runtime integers (%, cumsum, argmax): no sound static argument in reach; the only structural part (memo freshness) is decided under C11, and 'TrafficLight delegates to its cycle' is sufficient but not necessary, so a rule on it would fire on behaviour-preserving edits",
 }
